@@ -226,7 +226,7 @@ func TestVerifC11Loop(t *testing.T) {
 			name := fmt.Sprintf("p%d", p)
 			pods[p] = &corev1.Pod{ObjectMeta: metav1.ObjectMeta{Name: name, Namespace: "ns", UID: types.UID(name + "-uid")}}
 			ex.podIdx["ns/"+name] = p
-			ex.already[p] = rapid.IntRange(0, 5).Draw(t, "alreadyEvicted") == 0
+			ex.already[p] = rapid.IntRange(0, 5).Draw(t, "alreadyEvicted") == 5
 			for i := 0; i < nTasks; i++ {
 				ex.outcomes[p] = append(ex.outcomes[p], rapid.IntRange(0, 3).Draw(t, "evictFails") >= failBias)
 			}
